@@ -147,3 +147,6 @@ func VHarnessFaultQueryC15() {
 		}
 	}
 }
+
+// thorough tier: three query entries
+func VHarnessQueryC15Wide() { vhQueryStep(vhC15, 3) }
